@@ -386,6 +386,223 @@ def wr5(p, res):
     return n
 
 
+def _range_bounds(f, flow, sym, t):
+    """(lo, hi, reversed) of the plain Range behind `next(&mut it)`, following into_iter and rev; None otherwise"""
+    rg = wr.range_of_next(f, flow, sym, t)
+    if rg is not None and rg[0] is not None and rg[1] is not None:
+        return rg[0], rg[1], False
+    for r in flow.op_roots(t["a"][0]):
+        cur, hops = r, 0
+        while cur[0] == "call" and hops < 4:
+            t2 = f.blocks[cur[1]]["t"]
+            n2 = (f.callee_def(t2) or {}).get("n")
+            if n2 == "rev":
+                for r2 in flow.op_roots(t2["a"][0]):
+                    if r2[0] == "agg":
+                        rv = f.blocks[r2[1]]["s"][r2[2]][2]
+                        if rv.get("ak") == "Adt" and f.d(rv["adt"])["p"].endswith("ops::Range"):
+                            vals = {rv["fields"][i]: sym.operand(rv["o"][i]) for i in range(len(rv["o"]))}
+                            if vals.get("start") is not None and vals.get("end") is not None:
+                                return vals["start"], vals["end"], True
+                return None
+            if n2 == "into_iter":
+                nxt = list(flow.op_roots(t2["a"][0]))
+                if len(nxt) != 1:
+                    return None
+                cur, hops = nxt[0], hops + 1
+                continue
+            return None
+    return None
+
+
+def _first_iteration_value(f, flow, sym, t):
+    rb = _range_bounds(f, flow, sym, t)
+    if rb is not None:
+        return (rb[1] - Poly.const(1)) if rb[2] else rb[0]
+    return None
+
+
+def _first_iteration_value_old(f, flow, sym, t):
+    """value of the loop variable on the first traversal of `for v in lo..hi` (lo) or `for v in (lo..hi).rev()` (hi - 1); None when not a plain range"""
+    rg = wr.range_of_next(f, flow, sym, t)
+    if rg is not None and rg[0] is not None:
+        return rg[0]
+    for r in flow.op_roots(t["a"][0]):
+        cur = r
+        hops = 0
+        while cur[0] == "call" and hops < 4:
+            t2 = f.blocks[cur[1]]["t"]
+            n2 = (f.callee_def(t2) or {}).get("n")
+            if n2 == "rev":
+                for r2 in flow.op_roots(t2["a"][0]):
+                    if r2[0] == "agg":
+                        rv = f.blocks[r2[1]]["s"][r2[2]][2]
+                        if rv.get("ak") == "Adt" and f.d(rv["adt"])["p"].endswith("ops::Range"):
+                            vals = {rv["fields"][i]: sym.operand(rv["o"][i]) for i in range(len(rv["o"]))}
+                            if vals.get("end") is not None:
+                                return vals["end"] - Poly.const(1)
+                return None
+            if n2 in ("into_iter",):
+                nxt = list(flow.op_roots(t2["a"][0]))
+                if len(nxt) != 1:
+                    return None
+                cur = nxt[0]
+                hops += 1
+                continue
+            return None
+    return None
+
+
+def _first_iteration_feasible(f, g, path, flow, sym):
+    """False when the first traversal of a range loop takes the `v != first value` arm of a comparison of the loop variable with that value"""
+    for L in g.loops():
+        h = L["header"]
+        if h not in path:
+            continue
+        nx = None
+        for b in sorted(L["body"]):
+            t = f.blocks[b]["t"]
+            if t and t["k"] == "Call" and (f.callee_def(t) or {}).get("n") == "next" and g.innermost_loop(b) is L:
+                nx = (b, t)
+                break
+        if nx is None:
+            continue
+        first = _first_iteration_value(f, flow, sym, nx[1])
+        if first is None:
+            continue
+        var = Poly.atom(("call", f.uid, nx[0], ("0",)))
+        nxt = {path[i]: path[i + 1] for i in range(len(path) - 1)}
+        for b in path:
+            if b not in L["body"] or b not in nxt:
+                continue
+            t = f.blocks[b]["t"]
+            if not t or t["k"] != "Switch" or len(t["ts"]) != 1:
+                continue
+            for r in flow.op_roots(t["o"]):
+                if r[0] != "bin":
+                    continue
+                st = f.blocks[r[1]]["s"][r[2]][2]
+                if st["op"] not in ("Eq", "Ne"):
+                    continue
+                a, c = sym.operand(st["o"][0]), sym.operand(st["o"][1])
+                if {a.key(), c.key()} != {var.key(), first.key()}:
+                    continue
+                truth = nxt[b] != t["ts"][0][1]
+                equal = truth if st["op"] == "Eq" else (not truth)
+                if not equal:
+                    return False
+    return True
+
+
+# ------------------------------------------------------------------ WR-6
+def wr6(p, res):
+    """carry buffers of the shift / normalisation shape functions: on every feasible path - zero-trip loops included, with `for j in 0..T` skipped
+    implying T == 0 - the buffer is written (first_step* kernel or znx_zero) before a middle/final step reads it"""
+    from . import sc, c12
+    n = 0
+    for f in sorted(p.lib_fns(), key=lambda x: x.uid):
+        if f.kind == "Closure" or not f.uid.startswith(("poulpy_cpu_ref::reference::vec_znx", "poulpy_cpu_ref::reference::fft64::vec_znx_big", "poulpy_cpu_ref::reference::ntt120::vec_znx_big")):
+            continue
+        flow = Flow(f, transparent=("split_at_mut", "index_mut", "deref_mut", "as_mut"))
+        # carry objects: last argument of normalisation step kernels
+        events = {}  # bb -> (object key, kind)
+        for bi, t in f.calls():
+            cn = (f.callee_def(t) or {}).get("n", "")
+            if cn.startswith("znx_normalize_") and t["a"]:
+                rr = flow.op_roots(t["a"][-1])
+                key = tuple(sorted(r[:2] + (r[2],) if r[0] == "param" else r[:3] for r in rr if r[0] in ("param", "call")))
+                if not key:
+                    continue
+                kind = "init" if "first_step" in cn else "read"
+                events[bi] = (key, kind, cn, t["l"])
+        objs = {e[0] for e in events.values()}
+        if not objs:
+            continue
+        for bi, t in f.calls():
+            cn = (f.callee_def(t) or {}).get("n", "")
+            if cn in ("znx_zero", "fill", "znx_copy") and t["a"]:
+                rr = flow.op_roots(t["a"][0])
+                key = tuple(sorted(r[:2] + (r[2],) if r[0] == "param" else r[:3] for r in rr if r[0] in ("param", "call")))
+                if key in objs:
+                    events[bi] = (key, "init", cn, t["l"])
+        n += 1
+        g = CFG(f)
+        paths = sc.returning_paths(f, g, cap=4096, unroll=1, dowhile=False)
+        if not paths:
+            res.undec("WR-6", "%s: too many paths" % f.pretty)
+            continue
+        plain = Flow(f)
+        sym = Sym(f, plain)
+        loops = g.loops()
+        # trip-count facts: header -> polynomial `hi - lo` of `for j in lo..hi`
+        trip = {}
+        for L in loops:
+            for b in sorted(L["body"]):
+                t = f.blocks[b]["t"]
+                if t and t["k"] == "Call" and (f.callee_def(t) or {}).get("n") == "next" and g.innermost_loop(b) is L:
+                    rg = _range_bounds(f, plain, sym, t)
+                    if rg:
+                        trip[L["header"]] = (rg[1] - rg[0], L)
+                    break
+
+        def feasible(path):
+            on = set(path)
+            facts_ = []  # (poly key, is_zero)
+            for h, (tp, L) in trip.items():
+                if h not in on:
+                    continue
+                latches = [b for b in L["body"] if h in g.succ[b]]
+                entered = any(b in on for b in latches)
+                facts_.append((tp.key(), not entered))
+            # loops with the same trip count run zero times together
+            seen_f = {}
+            for k, z in facts_:
+                if seen_f.setdefault(k, z) != z:
+                    return False
+            nxt = {path[i]: path[i + 1] for i in range(len(path) - 1)}
+            for b in path:
+                t = f.blocks[b]["t"]
+                if not t or t["k"] != "Switch" or len(t["ts"]) != 1 or b not in nxt:
+                    continue
+                for r in plain.op_roots(t["o"]):
+                    if r[0] != "bin":
+                        continue
+                    st = f.blocks[r[1]]["s"][r[2]][2]
+                    if st["op"] not in ("Eq", "Ne"):
+                        continue
+                    a, c = sym.operand(st["o"][0]), sym.operand(st["o"][1])
+                    truth = nxt[b] != t["ts"][0][1]
+                    equal = truth if st["op"] == "Eq" else (not truth)
+                    for d in ((a - c).key(), (c - a).key()):
+                        for k, is_zero in facts_:
+                            if d == k and equal != is_zero:
+                                return False
+            return True
+
+        bad = None
+        for path in paths:
+            state = {}
+            hit = None
+            for b in path:
+                if b in events:
+                    key, kind, cn, line = events[b]
+                    if kind == "init":
+                        state[key] = True
+                    elif not state.get(key):
+                        hit = (cn, line)
+                        break
+            if hit and feasible(path) and _first_iteration_feasible(f, g, path, plain, sym):
+                bad = hit
+                break
+        if bad:
+            res.bad("WR-6", f.pretty, "carry-read-before-write:%s" % bad[0],
+                    "%s: on a path where the loop that primes the carry buffer runs zero times, `%s` reads the carry before anything wrote it: the result depends on the previous contents of the scratch slice"
+                    % (f.pretty, bad[0]), site=f.where(bad[1]))
+        else:
+            res.ok("WR-6", {"fn": f.pretty, "paths": len(paths), "carry_objects": len(objs)})
+    return n
+
+
 def run(res, tier):
     res.level = "other"
     res.explanation = ("Shape-level clauses of C11 on MIR of every HAL shape function of the reference and AVX crates (functions with an (X, X_col) operand pair): for overwrite-type "
@@ -396,6 +613,7 @@ def run(res, tier):
     res.rule("WR-1", "overwrite-type shape function: written limb ranges (direct, via for_each, or forwarded to another overwrite-type shape function) cover [0, res.size()) for every ordering of the size variables; conditional writes need another write for the same limb")
     res.rule("WR-2", "every at/at_mut on a view of operand X takes X_col as its column (polynomial identity, closures included)")
     res.rule("WR-3", "pointers from as_ptr() of read-only slice operands never become store destinations")
+    res.rule("WR-6", "carry buffers of shift / normalisation shape functions are written (first_step* kernel or znx_zero) before any middle/final step reads them on every feasible path, zero-trip loops included (a skipped `for j in 0..T` implies T == 0)")
     res.rule("WR-5", "every mutable use of a column-selected output operand is column-selective (at_mut / zero_at), a re-view, or a hand-over to another shape function; whole-object mutators are violations (five raw-offset functions listed by name)")
     res.rule("WR-4", "raw-slice kernels taking `limb_offset`: the zero fill of the result starts exactly one stride after the last explicitly addressed written limb (fft64 and ntt120 vector-matrix products)")
     res.rule("COL-1", "core noise-free operations write their result through HAL calls whose column is the variable of a range loop")
@@ -415,6 +633,8 @@ def run(res, tier):
         res.floor("WR-3", "as_ptr sources on read-only operands", n3, 20, ref_min=2)
         nc = col1(p, res)
         res.floor("COL-1", "core noise-free operations", nc, 12)
+        n6 = wr6(p, res)
+        res.floor("WR-6", "shape functions with a carry buffer", n6, 6)
         n5 = wr5(p, res)
         res.floor("WR-5", "shape functions with a column-selected output", n5, 150, ref_min=90)
         n4 = wr4(p, res)
